@@ -249,6 +249,7 @@ class BibliographyData(object):
 
         crossref_count = CaseInsensitiveDefaultDict(int)
         citation_set = CaseInsensitiveSet(citations)
+        extra_citations = []
         for citation in citations:
             try:
                 entry = self.entries[citation]
@@ -258,19 +259,33 @@ class BibliographyData(object):
             try:
                 crossref_entry = self.entries[crossref]
             except KeyError:
-                report_error(BibliographyDataError(
-                    'bad cross-reference: entry "{key}" refers to '
-                    'entry "{crossref}" which does not exist.'.format(
-                        key=citation, crossref=crossref,
-                    )
-                ))
+                self._report_bad_crossref(citation, crossref)
                 continue
 
             canonical_crossref = crossref_entry.key
             crossref_count[canonical_crossref] += 1
             if crossref_count[canonical_crossref] >= min_crossrefs and canonical_crossref not in citation_set:
                 citation_set.add(canonical_crossref)
+                extra_citations.append(canonical_crossref)
                 yield canonical_crossref
+
+        # the entries added above go into the bibliography too:
+        # their own dangling cross-references are reported as well
+        for citation in extra_citations:
+            try:
+                crossref = self.entries[citation].fields['crossref']
+            except KeyError:
+                continue
+            if crossref not in self.entries:
+                self._report_bad_crossref(citation, crossref)
+
+    def _report_bad_crossref(self, key, crossref):
+        report_error(BibliographyDataError(
+            'bad cross-reference: entry "{key}" refers to '
+            'entry "{crossref}" which does not exist.'.format(
+                key=key, crossref=crossref,
+            )
+        ))
 
     def _expand_wildcard_citations(self, citations):
         r"""
